@@ -11,6 +11,7 @@ import (
 	"github.com/ipfs/go-cid"
 	"github.com/ipld/go-storethehash/store/primary"
 	"github.com/ipld/go-storethehash/store/types"
+	"github.com/ipld/go-storethehash/store/vhook"
 	"github.com/multiformats/go-multihash"
 )
 
@@ -181,6 +182,7 @@ func (cp *CIDPrimary) Flush() (types.Work, error) {
 	cp.nextPool = newBlockPool()
 	cp.outstandingWork = 0
 	cp.poolLk.Unlock()
+	vhook.Point("cid.flush.swapped")
 
 	var work types.Work
 	for _, record := range cp.curPool.blocks {
@@ -190,6 +192,7 @@ func (cp *CIDPrimary) Flush() (types.Work, error) {
 		}
 		work += blockWork
 	}
+	vhook.Point("cid.flush.write")
 	err := cp.writer.Flush()
 	if err != nil {
 		return 0, fmt.Errorf("cannot flush data to primary file %s: %w", cp.file.Name(), err)
